@@ -684,13 +684,31 @@ func init() {
 		},
 		Cases: func(tier string) int {
 			if tier == "thorough" {
-				return 4000
+				return 4000 + c08ConcurrentCases(tier)
 			}
-			return 400
+			return 400 + c08ConcurrentCases(tier)
 		},
-		Run: c08Run,
+		Run: func(c *core.C, idx int) {
+			n := 400
+			if c.Thorough() {
+				n = 4000
+			}
+			if idx >= n {
+				c08Concurrent(c, idx-n)
+				return
+			}
+			c08Run(c, idx)
+		},
+		// the concurrency part once more under the race detector
+		RaceCases: func(tier string) int {
+			if tier == "thorough" {
+				return 48
+			}
+			return 8
+		},
+		RunRace: c08Concurrent,
 		Required: []string{"universes", "modules_vs_model", "presentations_compared", "cache_hits", "remote_module_digests",
 			"perturb_module_file", "perturb_non_module", "perturb_dependency_only", "manifests_checked", "manifests_roundtripped",
-			"remote_pinned_digests", "remote_tamper_detected", "workspace_presentations"},
+			"remote_pinned_digests", "remote_tamper_detected", "workspace_presentations", "concurrent_digests"},
 	})
 }
